@@ -265,11 +265,15 @@ pub fn announce_url(seed: u64) -> Plan {
         _ => format!(":{}", r.range(1, 65535)),
     };
     let path = r.pick(&["/announce", "/a/b/announce", "/", "/announce.php", "/x%20y/ann"]).to_string();
-    let query = match r.below(6) {
-        0..=2 => String::new(),
-        3 => "?passkey=abc123".to_string(),
-        4 => "?k=v&uid=77&flag".to_string(),
-        _ => "?".to_string(),
+    let query = match r.below(10) {
+        0..=3 => String::new(),
+        4 => "?passkey=abc123".to_string(),
+        5 => "?k=v&uid=77&flag".to_string(),
+        6 => "?".to_string(),
+        // a literal '?' inside the existing query is legal (RFC 3986 3.4)
+        7 => "?k=v&q=what?".to_string(),
+        8 => "?ref=http://mirror.example/a?b&passkey=s3cr3t".to_string(),
+        _ => "?a=b&".to_string(),
     };
     g.announce = format!("http://{}{}{}{}", host, port, path, query);
     // grind the pad until the info-hash contains the byte aimed at
